@@ -51,7 +51,11 @@ pub const ENDGAME_FENS: [&str; 14] = [
 ];
 
 /// Positions with no legal move (mated / stalemated) and single-reply positions.
-pub const TERMINAL_FENS: [&str; 10] = [
+pub const TERMINAL_FENS: [&str; 13] = [
+    "k7/8/8/8/8/8/1r6/K7 w - - 0 1",                                     // single legal move (Kxb2)
+    "6k1/5ppp/8/8/8/8/8/K5R1 b - - 0 1",                                 // few replies, back-rank motifs
+    "5rk1/5ppp/8/8/8/8/8/K2R4 w - - 0 1",                                // quiet, rooks
+
     "7k/5Q2/6K1/8/8/8/8/8 b - - 0 1",                                   // stalemate
     "k7/2Q5/1K6/8/8/8/8/8 b - - 0 1",                                    // stalemate
     "6rk/5Npp/8/8/8/8/8/K7 b - - 0 1",                                   // smothered mate
@@ -147,6 +151,8 @@ pub fn random_setup(rng: &mut Rng, max_extra: usize) -> Pos {
 
 #[derive(Clone, Copy, PartialEq, Eq, Debug)]
 pub enum StartKind {
+    /// checkmated / stalemated / mate-in-one / single-reply positions
+    Terminal,
     Initial,
     Suite,
     Special,
@@ -168,6 +174,7 @@ pub fn choose_start(rng: &mut Rng, weights: &[(StartKind, usize)]) -> (StartKind
         roll -= *w;
     }
     let mut pos = match kind {
+        StartKind::Terminal => Pos::from_fen(*rng.pick(&TERMINAL_FENS[..])).unwrap(),
         StartKind::Initial => Pos::startpos(),
         StartKind::Suite => Pos::from_fen(*rng.pick(&suite_fens()[..])).unwrap(),
         StartKind::Special => Pos::from_fen(*rng.pick(&SPECIAL_FENS[..])).unwrap(),
